@@ -248,6 +248,28 @@ pub fn c11(ctx: &mut Ctx) {
             ));
         }
         work.push(("surplus-step".into(), vec![Fault::Append { path: "config.fri.fri_step_sizes".into(), value: Some("0x3".into()) }]));
+        // missing trailing entries hidden behind a raised bound: the last k layer descriptions (or
+        // the last k steps) cut off while n_layers stays, the last-layer bound raised by the steps
+        // that lost their description, so that every size relation over the remaining entries still
+        // balances. The declared layer count has no matching data: invalid whatever the sums say.
+        {
+            let steps: Vec<Felt> = cfg["fri"]["fri_step_sizes"].as_array().map(|a| a.iter().filter_map(image::felt_of).collect()).unwrap_or_default();
+            let n_inner = cfg["fri"]["inner_layers"].as_array().map(|a| a.len()).unwrap_or(0);
+            let bound = image::felt_of(&cfg["fri"]["log_last_layer_degree_bound"]).unwrap();
+            for k in 1..=n_inner.min(3) {
+                if steps.len() != n_inner + 1 {
+                    break;
+                }
+                let lost = steps[steps.len() - k..].iter().fold(Felt::ZERO, |a, b| a + *b);
+                let raise = Fault::Set { path: "config.fri.log_last_layer_degree_bound".into(), value: image::felt_hex(&(bound + lost)) };
+                work.push(("short-inner-layers+raised-bound".into(), vec![Fault::Truncate { path: "config.fri.inner_layers".into(), len: n_inner - k }, raise.clone()]));
+                work.push(("short-steps+raised-bound".into(), vec![Fault::Truncate { path: "config.fri.fri_step_sizes".into(), len: steps.len() - k }, raise.clone()]));
+                work.push((
+                    "short-both+raised-bound".into(),
+                    vec![Fault::Truncate { path: "config.fri.inner_layers".into(), len: n_inner - k }, Fault::Truncate { path: "config.fri.fri_step_sizes".into(), len: steps.len() - k }, raise],
+                ));
+            }
+        }
         // a non-zero first FRI step "folded into" the size relations: every size that sits above
         // the first committed layer raised by k, the layer heights kept
         for k in 1..=4u64 {
